@@ -304,6 +304,9 @@ void t_numcalc(FuzzedDataProvider& f) {
   const string& s = p[0];
   // ranges a-b are expanded element by element: keep the expansion bounded (a huge but valid range is a legitimate huge result)
   bool hugeRange = false; { long last = 0; bool have = false; string num; for (char ch : s + ",") { if (isdigit(static_cast<unsigned char>(ch))) num += ch; else { if (!num.empty()) { long v = num.size() > 7 ? 99999999 : atol(num.c_str()); if (v > 100000 || (have && labs(v - last) > 100000)) hugeRange = true; last = v; have = true; num.clear(); } } } }
+  // (integers may carry an exponent: "1e9-8" is a legitimate request for a range of 1e9 elements)
+  for (size_t q = 0; q + 1 < s.size(); ++q) if (isdigit(static_cast<unsigned char>(s[q])) && (s[q + 1] == 'e' || s[q + 1] == 'E')) hugeRange = true;
+  if (hugeRange) ++g_excluded;
   if (!hugeRange) try { vector<int> v = NumCalcApplicationTools::seqFromString(s, delim, seqd); if (v.size() >= 2) nt(); } catch (bpp::Exception&) { ++g_rejected; }
   // a sequence description that legitimately asks for more than 1e6 values is a huge result, not a parsing problem: not generated
   bool bigSeq = false;
